@@ -293,7 +293,7 @@ def worker_gate(ctx: Ctx):
                      'start() leaves a running worker that is neither counted nor stoppable')
 
 
-@rule('C04.DEFAULT', ['C04'])
+@rule('C04.DEFAULT', ['C04', 'C05'])
 def max_workers_default(ctx: Ctx):
     """executor.max_workers is the constructor argument, or os.cpu_count() when that is None."""
     ex = executor(ctx)
@@ -390,7 +390,7 @@ def _done_edges(ctx: Ctx, fn: FuncInfo, fvar: str) -> list[tuple[int, int]]:
     return out
 
 
-@rule('C11.FUTURE-PAIRING', ['C11', 'C05', 'C04', 'C10'])
+@rule('C11.FUTURE-PAIRING', ['C11', 'C05', 'C04', 'C10', 'C17'])
 def future_pairing(ctx: Ctx):
     """Typestate pairing in the executor: an entry leaves the running map only together with a terminal
     transition of its future (or when the future is already done), and every terminal transition of a
@@ -579,6 +579,14 @@ def dead_detect(ctx: Ctx):
     yield ctx.ob('C11.DEAD-DETECT', okm and after_drain, fn, sets[0] if sets else lp,
                  'every dead, not-done future gets TaskDiedError after the drain',
                  '' if okm and after_drain else 'a future whose process died without delivering a result is not (always) failed with TaskDiedError')
+    # the marking is not optional: every normal path of the round reaches it (a round that returns early keeps the dead
+    # worker's slot occupied and its future pending for as long as other results keep arriving)
+    every_round = g.on_all_paths_to_exit(g.entry, g.nodes_of(lp) or [g.primary(lp)], exc=False)
+    skip = [n for n in walk_local(fn.node) if isinstance(n, ast.Return)]
+    yield ctx.ob('C11.DEAD-DETECT', every_round, fn, skip[0] if (skip and not every_round) else lp,
+                 'the marking is reached on every normal path of the round',
+                 '' if every_round else 'a normal path through the round skips the marking of dead workers: a dead worker keeps its '
+                 'slot (and its task stays pending) while other results keep arriving', construct='every-round')
 
 
 @rule('C11.DRAIN-BOUNDED', ['C11'])
